@@ -36,6 +36,7 @@ import (
 	"pdverif/internal/etcdx"
 	"pdverif/internal/res"
 	"pdverif/internal/rng"
+	"pdverif/internal/srv15"
 )
 
 // ---------- controlled kv.Base: parks writes of one heartbeat thread ----------
@@ -964,6 +965,78 @@ func scanUnderWriter(opt *config.PersistOptions, seed uint64, n, rounds int) (st
 	}
 }
 
+// reElection (driver-side oracle on a real PD server with region storage): heartbeats are accepted in the first leader term of the
+// member, it loses the leadership and is elected again (ResetLeader: the same process, the region storage has already been loaded
+// once), then a stale heartbeat arrives before the current one: it must be rejected as in the first term, and what was served
+// must still be served.  Returns (violation, trace); machinery problems are returned as a note.
+func reElection() (viol string, trace []string, note string) {
+	x, err := srv15.Start()
+	if err != nil {
+		return "", nil, "server did not start: " + err.Error()
+	}
+	defer x.Close()
+	if err := x.Bootstrap(); err != nil { // store 1, region 2 ["","") with peer 3 on store 1
+		return "", nil, "bootstrap failed: " + err.Error()
+	}
+	wait := func(d time.Duration, f func() bool) bool {
+		for end := time.Now().Add(d); time.Now().Before(end); time.Sleep(5 * time.Millisecond) {
+			if f() {
+				return true
+			}
+		}
+		return false
+	}
+	if !wait(10*time.Second, func() bool { rc := x.S.GetRaftCluster(); return rc != nil && rc.IsRunning() }) {
+		return "", nil, "the raft cluster did not start"
+	}
+	hbx := func(r c07x.Region) error {
+		err := hb(x.S.GetRaftCluster(), core.RegionFromHeartbeat(r.Heartbeat()))
+		res := "ok"
+		if err != nil {
+			res = "error"
+		}
+		trace = append(trace, fmt.Sprintf("heartbeat region %d [%q,%q) version %d conf_ver %d term %d -> %s", r.ID, r.Start, r.End, r.Ver, r.ConfVer, r.Term, res))
+		return err
+	}
+	p := []c07x.Peer{{ID: 3, Store: 1}}
+	left := c07x.Region{ID: 2, Start: "", End: "m", Peers: p, Leader: 3, Size: 10, Ver: 2, ConfVer: 1, Term: 6, Stamp: 1}
+	right := c07x.Region{ID: 10, Start: "m", End: "", Peers: []c07x.Peer{{ID: 11, Store: 1}}, Leader: 11, Size: 10, Ver: 2, ConfVer: 1, Term: 6, Stamp: 2}
+	stale := c07x.Region{ID: 2, Start: "", End: "", Peers: p, Leader: 3, Size: 10, Ver: 1, ConfVer: 1, Term: 6, Stamp: 3} // the region before its split
+	if hbx(left) != nil || hbx(right) != nil {
+		return "", trace, "the heartbeats of the first term were rejected"
+	}
+	if hbx(stale) == nil {
+		return "C06:stale-heartbeat-accepted", trace, ""
+	}
+	if err := x.S.GetStorage().Flush(); err != nil {
+		return "", trace, "flush failed: " + err.Error()
+	}
+	old := x.S.GetRaftCluster()
+	x.S.GetMember().ResetLeader()
+	trace = append(trace, "the member gives up its leadership (ResetLeader) and is elected again")
+	if !wait(5*time.Second, func() bool { return !x.S.GetMember().IsLeader() || !old.IsRunning() }) {
+		return "", trace, "the member did not lose its leadership"
+	}
+	if !wait(30*time.Second, func() bool {
+		rc := x.S.GetRaftCluster()
+		return x.S.GetMember().IsLeader() && rc != nil && rc.IsRunning()
+	}) {
+		return "", trace, "the member was not elected again"
+	}
+	time.Sleep(50 * time.Millisecond)
+	if hbx(stale) == nil {
+		got := x.S.GetRaftCluster().GetRegion(2)
+		return "C06:stale-heartbeat-accepted:after-re-election", append(trace, fmt.Sprintf("region 2 is now served as [%q,%q) version %d (it was served with version 2 before the re-election)",
+			got.GetStartKey(), got.GetEndKey(), got.GetRegionEpoch().GetVersion())), ""
+	}
+	for _, id := range []uint64{2, 10} {
+		if g := x.S.GetRaftCluster().GetRegion(id); g == nil || g.GetRegionEpoch().GetVersion() != 2 {
+			return "C06:served-region-forgotten-at-re-election", append(trace, fmt.Sprintf("GetRegion(%d) after the re-election: %v", id, g != nil)), ""
+		}
+	}
+	return "", trace, ""
+}
+
 // the check-then-put window: stream A (a new id, older in version than what stream B is about to put over its range) passes the
 // first PreCheckPutRegion and waits at c.Lock(); B is processed completely; A is then rejected by the check under the lock.
 // Nothing of A may have reached the cache or storage.
@@ -1163,6 +1236,17 @@ func main() {
 			}
 			emit(c)
 		}
+	}
+	if *replay == "" {
+		// last: the real server sets up its own global logger
+		v, trace, note := reElection()
+		if v != "" {
+			R.Violate(v, "a real PD server with region storage, one member, two leader terms of the same process: "+trace[len(trace)-1], map[string]interface{}{"trace": trace})
+		}
+		if note != "" {
+			R.Notes = append(R.Notes, "re-election phase incomplete (machinery, not a verdict): "+note)
+		}
+		R.Count("phase:re-election-on-a-real-server")
 	}
 	if err := cf.Flush(); err != nil {
 		panic(err)
